@@ -247,8 +247,24 @@ def _compositions(ck, prog):
         if isinstance(n, ast.Call) and isinstance(n.func, ast.Attribute) and n.func.attr == "append" \
                 and isinstance(n.func.value, ast.Name) and n.func.value.id == "grps":
             apps.append((n.lineno, tab.literal(m, n.args[0])))       # Undecided when not a literal
-    ck.shape(len(apps) >= 1, "linearCompositions: default groups appended as literals", f.loc())
-    got = [sorted(x) if isinstance(x, (list, tuple)) else x for _, x in sorted(apps, key=lambda t: t[0])]
+    folded = None
+    if not apps:
+        # ... or taken from a module-level constant: the default branch assigns `grps = <expression over a constant>`, folded by the evaluator
+        guard = [st for st in body if isinstance(st, ast.If) and unparse(st.test).replace(" ", "") in ("len(grps)>0", "len(grps)!=0", "grps", "len(grps)==0", "notgrps")]
+        if len(guard) == 1:
+            neg = unparse(guard[0].test).replace(" ", "") in ("len(grps)==0", "notgrps")
+            branch = guard[0].body if neg else guard[0].orelse
+            asg = [st for st in branch if isinstance(st, ast.Assign) and len(st.targets) == 1 and unparse(st.targets[0]) == "grps"]
+            if len(asg) == 1:
+                from lcsa.sym import Evaluator as _Ev, _Frame as _Fr, ObjV as _Ob
+                try:
+                    v = _Ev(prog).eval(asg[0].value, {"self": _Ob("Sequence")}, _Fr(f, 0))
+                except Undecided:
+                    v = None
+                if isinstance(v, (list, tuple)) and all(isinstance(x, (list, tuple, str)) and all(isinstance(c, str) and len(c) == 1 for c in x) for x in v):
+                    folded = [list(x) for x in v]
+    ck.shape(len(apps) >= 1 or folded is not None, "linearCompositions: default groups appended as literals, or assigned from a constant that folds to lists of letters", f.loc())
+    got = [sorted(x) if isinstance(x, (list, tuple)) else x for _, x in sorted(apps, key=lambda t: t[0])] if apps else [sorted(x) for x in folded]
     want = [sorted(g) for g in DEFAULT_GROUPS]
     ck.ob("TAB-default-groups", construct, got == want, expected=want, found=got, slot="default-groups", where=f.loc(),
           note="acidic, basic, charged, polar, aliphatic, aromatic, proline - in this order")
